@@ -107,6 +107,9 @@ func ruleC18R1(c *Ctx) {
 		for _, b := range blockingIn(c.P, fn) {
 			total++
 			name := anchorName(fn)
+			if gp := c.goParent(fn); gp != nil && !exactC18[name] {
+				name = anchorName(gp) + "$1" // a named goroutine body stands where the launcher's literal stood
+			}
 			construct := b.Kind + ": " + b.Desc
 			ok, why := c18Bounded(c, fn, b, closedFields, signalledFields)
 			if ok {
@@ -278,11 +281,11 @@ func c18Bounded(c *Ctx, fn *ssa.Function, b blockSite, closed, signalled map[str
 				arg := s.Common().Args[idx]
 				okSite := false
 				cl := map[ssa.Instruction]bool{}
-				for _, op := range chanOps(s.Parent()) {
+				for _, op := range c.chanOpsR(s.Parent()) {
 					if op.Kind != "close" {
 						continue
 					}
-					if sameValue(op.Chan, arg) || (fieldOf(op.Chan) != "" && fieldOf(op.Chan) == fieldOf(arg)) {
+					if (op.In.Parent() == s.Parent() && sameValue(op.Chan, arg)) || (fieldOf(op.Chan) != "" && fieldOf(op.Chan) == fieldOf(arg)) {
 						cl[op.In] = true
 					}
 				}
@@ -584,12 +587,27 @@ func ruleC18R4(c *Ctx) {
 	} {
 		p := c.P.Fn(a.parent)
 		var g *ssa.Function
+		// the closer is the goroutine that waits on the stop request (a literal or a named method; run also launches the
+		// connection handlers); failing that, the first literal, so that a closer that lost its wait is still examined
+		var literal *ssa.Function
 		for _, s := range callsIn(p) {
 			if gi, ok := s.(*ssa.Go); ok {
-				if mc, ok := resolve(gi.Call.Value).(*ssa.MakeClosure); ok {
-					g = mc.Fn.(*ssa.Function)
+				t := c.P.goTarget(gi)
+				if t == nil || !c.P.inUni[t] {
+					continue
+				}
+				if t.Parent() != nil && literal == nil {
+					literal = t
+				}
+				for _, cs := range c.callsInR(t) {
+					if f := cs.Common().StaticCallee(); f != nil && extName(f) == "github.com/relex/gotils/channels.AnyAwaitables" && g == nil {
+						g = t
+					}
 				}
 			}
+		}
+		if g == nil {
+			g = literal
 		}
 		if g == nil {
 			c.bad("C18.R4", p, a.what+" closer goroutine", p.Pos(), "no closer goroutine launched")
@@ -603,7 +621,7 @@ func ruleC18R4(c *Ctx) {
 		c.mustBeforeReturn("C18.R4", g, entryOf(g), sCl, a.what+" closed by its closer goroutine", a.closeName, g.Pos(), nil)
 		// it waits on the stop request
 		okStop := false
-		for _, s := range callsIn(g) {
+		for _, s := range c.callsInR(g) {
 			if f := s.Common().StaticCallee(); f != nil && extName(f) == "github.com/relex/gotils/channels.AnyAwaitables" {
 				if mentions(s.Common().Args[0], isFieldAddrOf("input/tcplistener.tcpLineListener.stopRequest")) {
 					okStop = true
